@@ -91,6 +91,10 @@ def model_correspondence(ctx, rng):
             continue
         if outcome != "ok":
             continue
+        # hypothesis of C15_expansion_is_path_sum_partial, evaluated by the model on this very dictionary
+        ctx.stats["topo_order_checked"] += 1
+        if len(r) < 3 or r[2] != "topo-ok":
+            ctx.disagreement("order of the model of _topological_sort is a valid expansion order (topoOK)", {"aggregation": dct}, str(r[2:] or "missing"), "topo-ok")
         m = model.decode_croutine(r[1])
 
         def cmp(node, mn, path):
